@@ -45,7 +45,7 @@ var rrComponents = map[string][3]string{
 
 func rrSeries(r *rand.Rand, T int) (rain, pet []float64, style string) {
 	rain, pet = make([]float64, T), make([]float64, T)
-	style = []string{"mixed", "dry-spells", "storms", "drizzle", "no-pet"}[r.Intn(5)]
+	style = []string{"mixed", "dry-spells", "storms", "drizzle", "no-pet", "wet"}[r.Intn(6)]
 	dry := 0
 	for t := 0; t < T; t++ {
 		switch style {
@@ -65,12 +65,16 @@ func rrSeries(r *rand.Rand, T int) (rain, pet []float64, style string) {
 			}
 		case "drizzle":
 			rain[t] = r.Float64() * 2
+		case "wet": // sustained rain with next to no evaporation: nearly everything must come out again, and no more
+			rain[t] = 6 + r.Float64()*34
 		default:
 			if r.Intn(2) == 0 {
 				rain[t] = r.ExpFloat64() * 10
 			}
 		}
-		if style != "no-pet" {
+		if style == "wet" {
+			pet[t] = r.Float64() * 0.3
+		} else if style != "no-pet" {
 			pet[t] = r.Float64() * 12
 		}
 	}
